@@ -553,12 +553,12 @@ AUTHZ_ASSUME = ["Datalog fragment of the model: ground facts, range-restricted r
                 "error classes: a failed check and an evaluation error are both observed as 'verification failure' (no exported sentinel distinguishes them)"]
 
 
-def authz_cfgs(run, negs, quick=("AuthzMC_two",)):
+def authz_cfgs(run, negs, quick=("AuthzMC_two",), full=True):
     ONE = ("AuthzMC", "AuthzMC_quick", "L1 theorems on every one-later-block catalogue instance + export", {})
     TWO = ("AuthzMC", "AuthzMC_two", "L1 theorems on every two-later-blocks instance + export", {})
     LIM = ("AuthzMC", "AuthzMC_lim", "L1 theorems on two-later-blocks instances under 4 run-limit configurations + export", {})
     if run.tier == "thorough":
-        cfgs = [("AuthzMC", "AuthzMC_thorough", "L1 theorems on every one-later-block instance (full authorizer catalogue) + export", {}), TWO, LIM,
+        cfgs = [("AuthzMC", "AuthzMC_thorough", "L1 theorems on every one-later-block instance (full authorizer catalogue) + export", {}) if full else ONE, TWO, LIM,
                 ("AuthzMC", "AuthzMC_sample", "L1 theorems on random instances of the rich catalogue + export", {"seed": run.seed})]
     else:
         cfgs = [c for c in (ONE, TWO, LIM) if c[1] in quick]
@@ -596,7 +596,7 @@ def c03(run):
                              "worlds, query results and every other component must be identical (theorem Scoped), the block world must "
                              "contain the authority closure (Visible).")
     run.assumptions = AUTHZ_ASSUME
-    authz_check(run, "C03", authz_cfgs(run, ["NoClone"]))
+    authz_check(run, "C03", authz_cfgs(run, ["NoClone"], full=False))
     authz_l3(run, core.build_driver(run.work))
 
 
@@ -606,7 +606,7 @@ def c12(run):
                              "never policies), with every authorizer fact added twice, under a different variable naming, and Authorize "
                              "is called twice: verdict and derived facts must equal the single specification value.")
     run.assumptions = AUTHZ_ASSUME
-    authz_check(run, "C12", authz_cfgs(run, []))
+    authz_check(run, "C12", authz_cfgs(run, [], full=False))
     # engine level: the programs of DatalogRun (recursion, mutual recursion, guards) evaluated with facts and rules
     # presented in a seed-chosen order; every order must give the specification's least fixpoint
     import random
